@@ -158,6 +158,9 @@ type offer struct {
 	HasErr  error
 	Bound   bool
 	QualAt0 *big.Int
+	// Unfiltered: what a real keeper hands out for this space when it is asked WITHOUT the plot filter (kind "filtered":
+	// the space's genuine proof, which fails only the filter)
+	Unfiltered *poc.DefaultProof
 }
 
 type round struct {
@@ -374,8 +377,17 @@ func genScenario(e *env, root *vh.Rng, idx int) *scenario {
 	}
 
 	height := uint64(rng.Range(2, 1390000))
-	if rng.Chance(1, 4) {
+	if rng.Chance(1, 3) {
 		height = consensus.MASSIP0002Height + uint64(rng.Intn(200000))
+		// the activation height itself and its neighbours: the template height, not the tip's, decides the plot filter
+		switch rng.Intn(6) {
+		case 0, 1, 2:
+			height = consensus.MASSIP0002Height
+		case 3:
+			height = consensus.MASSIP0002Height + 1
+		}
+	} else if rng.Chance(1, 8) {
+		height = consensus.MASSIP0002Height - 1
 	}
 	switch p.Class {
 	case "plain":
@@ -530,6 +542,7 @@ func (r *round) activate(now time.Time) {
 			o.Proof, o.HasErr = bad, fmt.Errorf("scripted keeper: proof failed verification")
 		case "filtered":
 			o.HasErr = poc.ErrProofFilter
+			o.Unfiltered = good
 		case "bad-xp":
 			o.Proof = bad
 		case "bad-ch":
@@ -626,11 +639,16 @@ func (r *round) targetAt(t time.Time) *big.Int {
 	return new(big.Int).Set(r.targets[j])
 }
 
-func (r *round) offerProofs() []*engine.WorkSpaceProof {
+func (r *round) offerProofs(filter bool) []*engine.WorkSpaceProof {
 	var out []*engine.WorkSpaceProof
 	for _, o := range r.offers {
 		sp := r.sc.env.spaces[o.Space]
 		w := &engine.WorkSpaceProof{SpaceID: sp.sid, PublicKey: sp.pub, Ordinal: int64(o.Space), Error: o.HasErr}
+		if !filter && o.Unfiltered != nil {
+			// asked without the plot filter, a keeper serves the proof the filter would have withheld
+			w.Error = nil
+			w.Proof = &poc.DefaultProof{X: append([]byte{}, o.Unfiltered.X...), XPrime: append([]byte{}, o.Unfiltered.XPrime...), BL: o.Unfiltered.BL}
+		}
 		if o.Proof != nil {
 			w.Proof = &poc.DefaultProof{X: append([]byte{}, o.Proof.X...), XPrime: append([]byte{}, o.Proof.XPrime...), BL: o.Proof.BL}
 		}
